@@ -157,6 +157,7 @@ type runObs struct {
 	rootLeft  []string          // entries of the WorkdirRoot after the run
 	finalTree map[string]string // script name -> tree of its work directory ("" when absent)
 	alive     []string          // recorded pids that are still alive
+	escaped   []string          // $WORK-named archive entries found at the file-system root
 	isRoot    bool
 }
 
@@ -190,6 +191,28 @@ func pidAlive(pid int, marker string) bool {
 	return true
 }
 
+// procsUnder lists the live processes whose current directory is inside dir (every process a
+// script starts runs in the script's directory, which is below the scratch directory of the run).
+func procsUnder(dir string) []string {
+	var out []string
+	ents, _ := os.ReadDir("/proc")
+	for _, e := range ents {
+		pid, err := strconv.Atoi(e.Name())
+		if err != nil || pid == os.Getpid() {
+			continue
+		}
+		link, err := os.Readlink(filepath.Join("/proc", e.Name(), "cwd"))
+		if err != nil {
+			continue
+		}
+		if link == dir || strings.HasPrefix(link, dir+"/") {
+			cmdline, _ := os.ReadFile(filepath.Join("/proc", e.Name(), "cmdline"))
+			out = append(out, fmt.Sprintf("%d(%s)", pid, strings.ReplaceAll(strings.TrimRight(string(cmdline), "\x00"), "\x00", " ")))
+		}
+	}
+	return out
+}
+
 func (rn *runner) runBatch(b *Batch, dl *DeadlineJob) *runObs {
 	n := rn.nrun.Add(1)
 	dir := filepath.Join(rn.work, fmt.Sprintf("run-%d", n))
@@ -202,6 +225,16 @@ func (rn *runner) runBatch(b *Batch, dl *DeadlineJob) *runObs {
 	if err := os.Link(rn.helper, helper); err != nil {
 		data, _ := os.ReadFile(rn.helper)
 		os.WriteFile(helper, data, 0o755)
+	}
+	// $WORK-named entries: nothing of that name may be at the root beforehand
+	var workNamed []string
+	for i := range b.Scripts {
+		for _, f := range b.Scripts[i].Files {
+			if f.Work && safeWorkName(f.Path) {
+				workNamed = append(workNamed, f.Path)
+				removeEscaped(f.Path)
+			}
+		}
 	}
 	ro.canary = fmt.Sprintf("canary-%d-%d", os.Getpid(), n)
 	job := Job{Kind: "batch", Batch: *b, Dir: dir, Helper: helper, WorkRoot: filepath.Join(dir, "wroot"), Out: filepath.Join(dir, "obs", "result.json"), Deadline: dl}
@@ -295,10 +328,16 @@ func (rn *runner) runBatch(b *Batch, dl *DeadlineJob) *runObs {
 					ro.alive = append(ro.alive, strconv.Itoa(p))
 				}
 			}
+			ro.alive = append(ro.alive, procsUnder(dir)...)
 			if len(ro.alive) == 0 || time.Now().After(deadline) {
 				break
 			}
 			time.Sleep(50 * time.Millisecond)
+		}
+	}
+	for _, p := range workNamed {
+		if removeEscaped(p) {
+			ro.escaped = append(ro.escaped, "/"+p)
 		}
 	}
 	ents, _ := os.ReadDir(filepath.Join(dir, "tmp"))
@@ -326,6 +365,21 @@ func (rn *runner) runBatch(b *Batch, dl *DeadlineJob) *runObs {
 	// nothing of this run survives
 	syscall.Kill(-cmd.Process.Pid, syscall.SIGKILL)
 	return ro
+}
+
+// removeEscaped removes /<name> if it is a regular file with one of the harness's canary names and
+// reports whether it was there.
+func removeEscaped(name string) bool {
+	if !safeWorkName(name) {
+		return false
+	}
+	p := "/" + name
+	st, err := os.Lstat(p)
+	if err != nil || !st.Mode().IsRegular() {
+		return false
+	}
+	os.Remove(p)
+	return true
 }
 
 func (ro *runObs) cleanup() {
@@ -514,6 +568,7 @@ func (rn *runner) aloneCanon(b *Batch, i int) (string, string) {
 	one := *b
 	one.Scripts = []Script{b.Scripts[i]}
 	one.Scripts[0].DelayMs = 0
+	one.Procs, one.Par = 2, 8 // the solitary run does not depend on the variant of the batch
 	key := specKey(&one)
 	rn.aloneMu.Lock()
 	ar := rn.alone[key]
@@ -546,10 +601,14 @@ func tail(s string, n int) string {
 // evalBatch runs the batch, applies every oracle and compares with the model.
 func (rn *runner) evalBatch(b *Batch, withAlone bool) ([]finding, *runObs) {
 	var fs []finding
-	ro := rn.runBatch(b, nil)
 	add := func(kind, oracle, detail, model, impl string) {
 		fs = append(fs, finding{kind, oracle, detail, model, impl})
 	}
+	if err := b.validate(); err != nil {
+		add("correspondence", "spec-refused", err.Error(), "", "")
+		return fs, &runObs{dir: filepath.Join(rn.work, "refused"), finalTree: map[string]string{}}
+	}
+	ro := rn.runBatch(b, nil)
 	if strings.Contains(ro.output, "DATA RACE") {
 		add("impl-violation", "race-detector", "the race detector reported a data race while the batch ran: "+tail(ro.output, 1500), "", "")
 	}
@@ -566,6 +625,9 @@ func (rn *runner) evalBatch(b *Batch, withAlone bool) ([]finding, *runObs) {
 		return fs, ro
 	}
 	// ---- direct oracles
+	if len(ro.escaped) > 0 {
+		add("impl-violation", "workdir/escape", "archive entries named $WORK/<name> were unpacked outside the work directory, at "+strings.Join(ro.escaped, ", ")+" (removed again)", "", "")
+	}
 	if len(ro.alive) > 0 {
 		add("impl-violation", "process-left", "processes started by the scripts are still alive after RunT returned: pids "+strings.Join(ro.alive, ","), "", "")
 	}
@@ -729,7 +791,7 @@ func (rn *runner) shrink(b *Batch, oracle string) *Batch {
 	if strings.HasPrefix(oracle, "isolation/") {
 		minScripts = 2
 	}
-	budget := 40
+	budget := 60
 	bad := func(c *Batch) bool {
 		if budget <= 0 {
 			return false
@@ -753,6 +815,13 @@ func (rn *runner) shrink(b *Batch, oracle string) *Batch {
 			return bad(&c)
 		})
 		cur.Scripts[i].Body = body
+		files := common.ShrinkList(cur.Scripts[i].Files, func(fl []File) bool {
+			c := cur
+			c.Scripts = append([]Script{}, cur.Scripts...)
+			c.Scripts[i].Files = fl
+			return bad(&c)
+		})
+		cur.Scripts[i].Files = files
 	}
 	return &cur
 }
@@ -915,21 +984,24 @@ func (rn *runner) mainC04() {
 	}
 	// 3. generated batches, each run under two settings of GOMAXPROCS / parallelism / delays
 	r := common.NewRNG(f.Seed)
-	n := 22
+	n := 18
 	if f.Tier == "thorough" {
-		n = 400
+		n = 300
 	}
 	for i := 0; i < n; i++ {
 		b := genBatch(r, rn.nonRoot)
 		addB(b, "generated")
-		v := b
-		v.Scripts = append([]Script{}, b.Scripts...)
-		v.Procs = common.Pick(r, []int{1, 2, 4, 8, 16})
-		v.Par = common.Pick(r, []int{1, 2, 8})
-		for k := range v.Scripts {
-			v.Scripts[k].DelayMs = r.Intn(3) * r.Intn(15)
+		for rep := 0; rep < 2; rep++ {
+			v := b
+			v.Scripts = append([]Script{}, b.Scripts...)
+			v.Procs = common.Pick(r, []int{1, 2, 4, 8, 16})
+			v.Par = common.Pick(r, []int{1, 2, 8})
+			v.Verbose = r.Chance(1, 3)
+			for k := range v.Scripts {
+				v.Scripts[k].DelayMs = r.Intn(3) * r.Intn(15)
+			}
+			addB(v, "generated-variant")
 		}
-		addB(v, "generated-variant")
 	}
 	workers := 5
 	var wg sync.WaitGroup
@@ -948,7 +1020,7 @@ func (rn *runner) mainC04() {
 	}
 	close(ch)
 	wg.Wait()
-	res.Rule = fmt.Sprintf("corpus batches, the execCache pair in both start orders, a hand-written batch covering every exit path (pass, fail, skip, stop, setup failure, panicking custom command, panicking deferred function) with defers, background processes and read-only directories under each retention mode, then %d generated batches of 2-8 scripts, each run under two settings of GOMAXPROCS / subtest parallelism / start delays; every script is also run alone; children built with -race, unprivileged when possible; a batch is non-trivial when some script has defers, background processes, probes or does not pass; distinct = distinct (retention, verdicts, defer orders, probe counts)", n)
+	res.Rule = fmt.Sprintf("corpus batches, the execCache pair in both start orders, a hand-written batch covering every exit path (pass, fail, skip, stop, setup failure, panicking custom command, panicking deferred function) with defers, background processes and read-only directories under each retention mode, then %d generated batches of 2-8 scripts, each run under three settings of GOMAXPROCS / subtest parallelism / start delays / verbosity; every script is also run alone; children built with -race, unprivileged when possible; a batch is non-trivial when some script has defers, background processes, probes or does not pass; distinct = distinct (retention, verdicts, defer orders, probe counts)", n)
 }
 
 // exitPathsBatch: one script per exit path, each with deferred functions, a background process and a
@@ -961,7 +1033,7 @@ func exitPathsBatch() Batch {
 			{Op: "G", ID: 1, Flag: true}, {Op: "D", ID: 2}, {Op: "O"},
 		}
 		body = append(body, tailActs...)
-		return Script{Name: name, Files: []File{{"a.txt", "x\n"}, {"d/b.txt", "y\n"}}, Adds: []KV{{"EXTRA", "v"}, {"SUB", "$WORK/sub"}},
+		return Script{Name: name, Files: []File{{Path: "a.txt", Data: "x\n"}, {Path: "d/b.txt", Data: "y\n"}, {Path: escapePrefix + name + ".txt", Data: "z\n", Work: true}}, Adds: []KV{{"EXTRA", "v"}, {"SUB", "$WORK/sub"}},
 			Defers: []DeferSpec{{ID: 100}}, Body: body}
 	}
 	b := Batch{Procs: 4, Par: 8, Canary: true, Cover: true}
@@ -972,8 +1044,8 @@ func exitPathsBatch() Batch {
 		common("stop", Action{Op: "T"}, Action{Op: "F"}),
 		common("panic", Action{Op: "Z"}),
 		common("badwrite", Action{Op: "W", Path: "ro/inner/g", Data: "2"}),
-		{Name: "setupfail", Files: []File{{"d", "file"}, {"d/b.txt", "y\n"}}, Body: []Action{{Op: "O"}}},
-		{Name: "setuperr", Files: []File{{"a.txt", "x\n"}}, Defers: []DeferSpec{{ID: 100}, {ID: 101}}, SetupErr: true, Body: []Action{{Op: "O"}}},
+		{Name: "setupfail", Files: []File{{Path: "d", Data: "file"}, {Path: "d/b.txt", Data: "y\n"}}, Body: []Action{{Op: "O"}}},
+		{Name: "setuperr", Files: []File{{Path: "a.txt", Data: "x\n"}}, Defers: []DeferSpec{{ID: 100}, {ID: 101}}, SetupErr: true, Body: []Action{{Op: "O"}}},
 	}
 	bd := common("baddefer", Action{Op: "D", ID: 3, Flag: true}, Action{Op: "D", ID: 4})
 	b.Scripts = append(b.Scripts, bd)
